@@ -970,7 +970,7 @@ func tobjects(fs *[]*tfield, md protoreflect.MessageDescriptor, out *[]tobj, dup
 			}
 		}
 		if seq == "VE" && exceptValueThenExpanded {
-			// classifier of the finding prototext-any-value-then-expanded-accepted: `value: … [url] {…}` and nothing else
+			// classifier of the former finding prototext-any-value-then-expanded-accepted (fixed in /repo 9e1c44b): `value: … [url] {…}` and nothing else
 			return
 		}
 		if nt > 1 || nv > 1 {
@@ -1024,7 +1024,8 @@ func tobjects(fs *[]*tfield, md protoreflect.MessageDescriptor, out *[]tobj, dup
 	}
 }
 
-// exceptValueThenExpanded makes the oracle overlook the one pattern of the known finding sigAnyVE (classifier only)
+// exceptValueThenExpanded makes the oracle overlook the one pattern of the former finding sigAnyVE (fixed in /repo
+// 9e1c44b; classifier only, kept so that a regression is reported under the old signature)
 var exceptValueThenExpanded bool
 
 const sigAnyVE = "prototext-any-value-then-expanded-accepted"
